@@ -229,6 +229,23 @@ def int_write_small_exhaustive(rng, fs, tier="quick"):
     return ops
 
 
+def int_write_reqsign(rng, fs):
+    """required_mantissa_sign formats (only meaningful with the `format` feature)"""
+    ops = []
+    if not has_format(fs):
+        return ops
+    for r in (10, 2, 7, 16, 36):
+        if r not in radices(fs):
+            continue
+        f = fmt_hex(pack(r, flags=0xC | (1 << 5)))
+        for ty in INT_TYPES:
+            lo, hi = int_range(ty)
+            for v in (0, 1, 5, hi, lo, hi // 3, rng.randint(lo, hi)):
+                ops.append("wi %s %s %d -" % (ty, f, v))
+                ops.append("wi %s %s %d %d" % (ty, f, v, 300))
+    return ops
+
+
 def int_write_shortbuf(rng, fs):
     """buffers shorter than / equal to / one longer than the numeral (checked-slice panic paths)"""
     ops = []
